@@ -143,7 +143,9 @@ def check(run):
         p = q.completion_count_param(fn)
         if p is not None and b is not None and b != INF:
             piv[p['name']] = (0, b)
-        piv.update(params_from_callers(fn))
+        for k_, v_ in params_from_callers(fn).items():
+            if k_ not in piv:           # a byte count bounded by the initiating read keeps that bound (the call site inside
+                piv[k_] = v_            # the completion lambda only forwards the lambda's own, syntactically unbounded, parameter)
         ai = intervals.AI(fx, fn, piv, cx.arrays, dict(summaries))
         cx.ai[k] = ai
         return ai
@@ -289,6 +291,62 @@ def check(run):
                 run.violation('R11', kind + '-length', construct, fn.loc(n), 'offset %s + length %s can exceed the %d bytes of %s (shortfall %s)' % (fmt_iv(stc.eval_lf(off)), fmt_iv(iv), ext, arr, -rl))
             else:
                 run.ok('R11', kind + '-length', construct, fn.loc(n), 'length in %s, offset %s, within %s[%d]' % (fmt_iv((lo, iv[1])), fmt_iv(stc.eval_lf(off)), arr, ext))
+    run.clause('reply codes reflect the outcome: the code handed to format_response evaluates, in each abstract state (request failed?, protocol version), to the value the protocol prescribes - success 0 (v5) / 90 (v4); refused target 5 (v5) / 91 (v4); other failures 1 (v5) / 91 (v4); unresolvable name 4')
+    REPLY = {'on_connected': {(False, 5): 0, (False, 4): 90, (True, 5): 5, (True, 4): 91},
+             'bind_connection': {(False, 5): 0, (False, 4): 90, (True, 5): 1, (True, 4): 91},
+             'udp_associate': {(False, 5): 0, (True, 5): 1}}
+    for name, table in REPLY.items():
+        f_ = fx.fn1(C + '::' + name)
+        run.touch(f_)
+        sites = [c for c in f_.calls() if (q.callee_name(c) or '').endswith(('::format_response', '::format_hostname_response')) and len(c.get('args', [])) >= 3]
+        if not sites:
+            run.unrecognised('R4', 'reply-code', C + '::' + name, f_.loc(), 'no format_response / format_hostname_response call found (reply idiom changed)')
+        for c in sites:
+            bad = []
+            unk = False
+            for (failed, ver), want in sorted(table.items()):
+                got = q.const_eval(f_, c['args'][2], lambda t: {'ec': failed, 'm_version': ver}.get(t))
+                if got is None:
+                    unk = True
+                elif int(got) != want:
+                    bad.append('%s in v%d -> %s (must be %d)' % ('failure' if failed else 'success', ver, got, want))
+            construct = '%s: %s(…, %s)' % (C + '::' + name, q.callee_name(c).split('::')[-1], q.render(f_, c['args'][2])[:40])
+            if bad:
+                run.violation('R4', 'reply-code', construct, f_.loc(c), 'the reply code does not reflect the outcome: ' + '; '.join(bad))
+            elif unk:
+                run.unrecognised('R4', 'reply-code', construct, f_.loc(c), 'the reply code expression cannot be evaluated from (ec, m_version)')
+            else:
+                run.ok('R4', 'reply-code', construct, f_.loc(c), 'evaluates to the prescribed code in all %d abstract states' % len(table))
+    dl = fx.fn1(C + '::on_request_domain_lookup')
+    run.touch(dl)
+    rep = [n for n in dl.all_nodes() if n['k'] == 'bin' and n['op'] == '=' and q.render(dl, n['lhs']) == 'm_in_buffer[1]']
+    ok4, n4 = q.edge_must_pass(dl, 'ec', True, [n for n in rep if q.int_value(n['rhs']) == 4])
+    run.check(bool(rep) and all(q.int_value(n['rhs']) == 4 for n in rep) and ok4 and n4 > 0, 'R4', 'reply-code', C + '::on_request_domain_lookup: m_in_buffer[1]', dl.loc(),
+              'an unresolvable name is not answered with reply code 4 on the failure path', 'reply 4 under ec')
+
+    run.clause('the endpoint announced in a reply is the one the proxy actually holds: BIND and UDP ASSOCIATE replies name the local endpoint of the socket the proxy opened (the client lets the proxy choose the port with port 0), CONNECT replies the peer of the server connection')
+    PROV = {'bind_connection': ('m_bind_socket', ('local_endpoint',)), 'udp_associate': ('m_udp_associate', ('local_endpoint', 'local_bound_to')), 'on_connected': ('m_server_connection', ('remote_endpoint', 'local_endpoint'))}
+    for name, (sock, meths) in PROV.items():
+        f_ = fx.fn1(C + '::' + name)
+        for c in [c for c in f_.calls() if (q.callee_name(c) or '').endswith(('::format_response', '::format_hostname_response'))]:
+            def derives(e, depth=0):
+                e = q.strip_casts(e)
+                if not is_node(e) or depth > 4:
+                    return False
+                for x in walk(e):
+                    if x['k'] == 'call' and (x.get('callee') or '').split('::')[-1] in meths and q.render(f_, x.get('obj')) == sock:
+                        return True
+                    if x['k'] == 'ref' and x.get('dk') == 'local':
+                        ds = q.local_defs(f_, x['did'])
+                        if ds and all(derives(d, depth + 1) for _, d in ds):
+                            return True
+                return False
+            args = [a for a in c['args'][:2] if not (q.strip_casts(a).get('k') == 'str')]
+            okp = bool(args) and all(derives(a) for a in args)
+            run.check(okp, 'R4', 'reply-endpoint', '%s: %s(%s)' % (C + '::' + name, q.callee_name(c).split('::')[-1], ', '.join(q.render(f_, a)[:25] for a in c['args'][:2])), f_.loc(c),
+                      'the address/port put into the reply do not come from %s.%s(): e.g. echoing the requested endpoint announces port 0 when the client asked the proxy to choose, and the target can never connect' % (sock, meths[0]),
+                      'derived from %s.%s()' % (sock, meths[0]))
+
     run.clause('relay structure: each direction forwards the whole chunk it read with the composed async_write from the buffer the read filled, to the other connection, and re-reads into that buffer only from the write completion')
     PAIRS = (('on_client_receive', 'on_client_forward', 'm_out_buffer', 'm_server_connection', 'm_client_connection'),
              ('on_server_receive', 'on_server_forward', 'm_in_buffer', 'm_client_connection', 'm_server_connection'))
